@@ -111,6 +111,42 @@ def collect (shape : Shape) (max : Nat) (qs : List Quad) : Option St :=
   | (s, some _) => some s
   | (_, none) => none
 
+/-! ### bulk pre-load used by the index-full histories -/
+
+/-- canonical row of the quad `(s, p, o, default graph)` given the indexes of its terms -/
+def freshRow (n max is ip io : Nat) : Row := if n = 4 then [max, is, ip, io] else [is, ip, io]
+
+/-- The state after inserting, one by one, the quads `(sT, pT, t, default graph)` for `t ∈ ts`, when
+`sT`/`pT` are already interned at `is`/`ip` and the `ts` are terms the store has never seen: written
+down directly (the new terms appended to the term index, one new row consed onto every index) so that
+a 65 000-quad pre-load is cheap. `bulkFresh_eq_insertAll` (SophiaProofs) proves that this IS the state
+`insert_all` produces, so histories that start with a pre-load are covered by the refinement theorems. -/
+def bulkFresh (s : St) (is ip : Nat) (ts : List Term) : St :=
+  { s with
+    terms := s.terms ++ ts,
+    idx := (s.idx.zip s.shape.perms).map (fun (ix, perm) =>
+      ((List.range ts.length).map (fun j =>
+        layout perm (freshRow s.shape.n s.max is ip (s.terms.length + j)))).reverse ++ ix) }
+
+/-- the objects of the pre-load: literals `"<i>"^^<x:fill>` (pairwise different: `Nat.repr` is injective) -/
+def fillTerm (i : Nat) : Term := .lit (toString i).toList "x:fill".toList
+
+def fillTerms (off m : Nat) : List Term := (List.range m).map (fun j => fillTerm (off + j))
+
+def objQuads (sT pT : Term) (ts : List Term) : List Quad := ts.map (fun t => (⟨sT, pT, t, none⟩ : Quad))
+
+/-- `insert_all` of the quads `(sT, pT, t, default graph)`, `t ∈ ts`: through the fast path
+`bulkFresh` when its preconditions are seen to hold (both fixed terms interned, every object unknown
+to the index, enough room), through `Store.insertAll` itself otherwise. `bulkInsert_eq_insertAll`
+(SophiaProofs) proves both paths equal for pairwise different objects. -/
+def bulkInsert (s : St) (sT pT : Term) (ts : List Term) : St × Option Nat :=
+  match getIndex s.terms sT, getIndex s.terms pT with
+  | some is, some ip =>
+    if ts.all (fun t => (getIndex s.terms t).isNone) && decide (s.terms.length + ts.length ≤ s.max) then
+      (bulkFresh s is ip ts, some ts.length)
+    else Store.insertAll s (objQuads sT pT ts) 0
+  | _, _ => Store.insertAll s (objQuads sT pT ts) 0
+
 /-- `<usize as Index>::MAX` on the 64-bit targets the harness runs on (the extractor checks that
 `impl Index for usize` still says `MAX = usize::MAX`) -/
 def maxUsize : Nat := 18446744073709551615
